@@ -1439,6 +1439,7 @@ func (r *RouteTable) applyUpdates(attempt int) error {
 
 	// Now do a first pass of the routes that we want to create/update and
 	// trigger any necessary conntrack cleanups for moved routes.
+	var earlyDeletedKeys []RouteKey
 	r.kernelRoutes.PendingUpdates().Iter(func(routeKey RouteKey, kernRoute kernelRoute) deltatracker.IterAction {
 		r.livenessCallback()
 		cidr := routeKey.CIDR
@@ -1451,9 +1452,16 @@ func (r *RouteTable) applyUpdates(attempt int) error {
 			}
 			// This will queue the route for conntrack cleanup.
 			r.conntrackTracker.OnDataplaneRouteDeleted(routeKey.CIDR, dataplaneRoute.Ifindex)
+			earlyDeletedKeys = append(earlyDeletedKeys, routeKey)
 		}
 		return deltatracker.IterActionNoOp
 	})
+	// The routes deleted above are no longer in the kernel; record that so
+	// that, if the replacement below fails and the desired route later
+	// reverts to the old value, we still re-create it.
+	for _, routeKey := range earlyDeletedKeys {
+		r.kernelRoutes.Dataplane().Delete(routeKey)
+	}
 
 	// Start any deferred conntrack cleanups and reset the tracking for next
 	// time.
